@@ -178,4 +178,28 @@ def drain (s : State) (seq : Nat) (obs : Nat → Option Nat) : State × Nat × L
   let (s, o2) := updateHandlers s
   (s, seq, q ++ o1 ++ o2)
 
+/-! ### The server half as a labelled transition system -/
+
+inductive Op where
+  | connect (p : Nat)
+  | disconnected (p : Nat)
+  | msg (p : Nat) (full : Bool) (entries : List Entry)
+  | newBlocks (bs : List (Nat × Nat))
+  | complete (seq : Nat) (r : StoreRes)
+  | drain (obs : Nat → Option Nat)
+
+/-- One step; `seq` counts the blockstore calls started so far. -/
+def step (s : State) (seq : Nat) : Op → State × Nat × List Out
+  | .connect p => (connect s p, seq, [])
+  | .disconnected p => (disconnected s p, seq, [])
+  | .msg p full es => (incoming s p full es, seq, [])
+  | .newBlocks bs => (newBlocks s bs, seq, [])
+  | .complete n r => ((complete s n r).getD s, seq, [])
+  | .drain obs => drain s seq obs
+
+/-- States reachable from the initial state by any finite sequence of operations. -/
+inductive Reachable : State → Nat → Prop where
+  | init : Reachable {} 0
+  | step {s seq} (op : Op) : Reachable s seq → Reachable (step s seq op).1 (step s seq op).2.1
+
 end Beetswap.Server
